@@ -280,10 +280,6 @@ def alias_kept(t):
     AL = ("alias", "when")      # F.when(...) results carry an automatic alias (the @meta decorator)
     if k == "between":
         out += ["between-bound"] * sum(1 for x in (t[2], t[3]) if x[0] in AL)
-    if k == "startswith" and t[2][0] in AL:
-        out.append("startswith-argument")
-    if k == "substr":
-        out += ["substr-argument"] * sum(1 for x in (t[2], t[3]) if x[0] in AL)
     for c in T.children(t):
         out += alias_kept(c)
     return out
@@ -561,7 +557,7 @@ def run(ctx: core.Ctx):
         ctx.broken(key, f"{len(v)} trees; smallest: {v[0]['python']}", data=v[:5])
     for key, (t, bad, desc) in first.items():
         ctx.deviation(key, f"{T.to_src(t)}: {bad}", desc)
-    ctx.coverage["deviation_examples"] = {k: {"python": T.to_src(t), "sql": d.get("sql_sent"), "what": bad, "unsafe_subtrees": d["unsafe_subtrees"]}
+    ctx.coverage["deviation_examples"] = {k: {"python": T.to_src(t), "sql": d.get("sql_sent"), "what": bad, "unsafe_subtrees": d["unsafe_subtrees"], "tree": t}
                                           for k, (t, bad, d) in sorted(first.items())}
     # ---- spec vs PySpark recordings
     n_rec = n_rec_ok = 0
